@@ -10,6 +10,7 @@ func init() {
 		Quick:      all("./proto", "./internal/impl"),
 		Thorough:   []ConfigLoad{{"default", []string{"./..."}}, {"legacy", []string{"./proto", "./internal/impl"}}},
 		Run: func(c *Ctx) {
+			c.ruleLazyFlagGate("R-LAZY-FLAG-GATE")
 			c.ruleLazyIndex("R-LAZY-INDEX")
 			c.ruleUnknownGuard("R-UNKNOWN-GUARD", 5)
 			c.ruleUnknownPreserve("R-UNKNOWN-PRESERVE")
